@@ -1,5 +1,7 @@
 from __future__ import annotations
 
+import copy
+
 import contextlib
 import importlib
 import numbers
@@ -89,7 +91,12 @@ class RandomState:
                 meta,
             ) = _choice_validate_params(self, a, size, replace, p, 0, chunks)
 
-            return new_collection(RandomChoice(a_val, a_expr, chunks, meta, self._numpy_state, replace, p_expr))
+            # A snapshot of the state for this node, and one draw to advance
+            # ``self`` so that the next call gets different numbers; the node's
+            # per-block seeds are then a function of the node alone
+            state = copy.deepcopy(self._numpy_state)
+            self._numpy_state.bytes(16)
+            return new_collection(RandomChoice(a_val, a_expr, chunks, meta, state, replace, p_expr))
 
     @derived_from(np.random.RandomState, skipblocks=1)
     def exponential(self, scale=1.0, size=None, chunks="auto", **kwargs):
